@@ -1,14 +1,14 @@
 SPECIFICATION Spec
 CONSTANTS
-  N = 4
-  Kinds <- K_callables
-  TKs <- TK_core
+  N = 3
+  Kinds <- K_hosted
+  TKs <- TK_method
   AllowList = FALSE
   AllowNSkip = FALSE
   AllowVSkip = FALSE
-  AllowReturn = TRUE
+  AllowReturn = FALSE
   AllowMoved = FALSE
-  AllowHost = FALSE
+  AllowHost = TRUE
   AllowRename = FALSE
   MaxFunctions = 1
   Stepwise = FALSE
@@ -16,9 +16,9 @@ CONSTANTS
   CallableWalks = 2
   RenameScopeCheck = TRUE
   COrder = TRUE
-  Orders <- Id4
+  Orders <- Id3
   KnownShapes <- Known_c
   ExportViol = 1
-  ExportOk = 997
+  ExportOk = 7
 INVARIANT NoUnknownViolation
 CHECK_DEADLOCK FALSE
